@@ -454,6 +454,9 @@ func rulePR4() Rule {
 					key := fmt.Sprintf("%s|line feed #%d", f.Name, k)
 					if why, ok := allowed[f.Root().Name]; ok {
 						rr.OK(f, key, call.Pos(), "listed", why)
+					} else if r := f.Root(); r.Obj != nil && r.Obj.Exported() && r.Decl != nil && calledFromEntriesOnly(c, r) && !touchesFrames(c, r) {
+						// an entry point the printing functions do not call back into, which prints whole nodes only
+						rr.OK(f, key, call.Pos(), "between-nodes", "written by an exported entry point between the nodes it prints: every printing function leaves the here-document stack as it found it (PU8), so nothing is pending there")
 					} else {
 						rr.Bad(f, key, call.Pos(), "a line feed is written without going through newline(): here-document bodies pending on this line are not written before it")
 					}
@@ -913,4 +916,52 @@ func (c *Ctx) falseForEmpty(h *core.Func, idx int) bool {
 		return true
 	})
 	return found
+}
+
+// touchesFrames reports whether f itself pushes or pops a frame of the
+// printer's here-document stack, or writes the stack field.
+func touchesFrames(c *Ctx, f *core.Func) bool {
+	push := c.fn("printer.(*printer).push")
+	pop := c.fn("printer.(*printer).heredoc")
+	stack := c.fieldVar("printer", "printer", "stack")
+	info := f.Info()
+	found := false
+	f.OwnNodes(func(n ast.Node) bool {
+		switch x := n.(type) {
+		case *ast.CallExpr:
+			if fo := core.StaticCallee(info, x); fo != nil {
+				if g := c.effective(c.P.FuncOf(fo)); g != nil && (g == push || g == pop) {
+					found = true
+				}
+			}
+		case *ast.SelectorExpr:
+			if stack != nil && core.FieldOf(info, x) == stack {
+				found = true
+			}
+		}
+		return true
+	})
+	return found
+}
+
+// calledFromEntriesOnly reports whether every call of f inside the module is
+// made by an exported function (not by a method of the unexported printer).
+func calledFromEntriesOnly(c *Ctx, f *core.Func) bool {
+	sites, _ := c.callSites(f, true)
+	for _, cs := range sites {
+		r := cs.in.Root()
+		if r.Obj == nil || !r.Obj.Exported() || r.Pkg != f.Pkg {
+			return false
+		}
+		if r.Decl != nil && r.Decl.Recv != nil && len(r.Decl.Recv.List) == 1 {
+			n := strings.TrimPrefix(namedTypeName(r.Info().TypeOf(r.Decl.Recv.List[0].Type)), "*")
+			if i := strings.LastIndex(n, "."); i >= 0 {
+				n = n[i+1:]
+			}
+			if !ast.IsExported(n) {
+				return false
+			}
+		}
+	}
+	return true
 }
